@@ -1,4 +1,5 @@
 """C08 - awaiting a condition returns only when it is true, and is never missed"""
+import copy
 import random
 
 from .. import bootstrap  # noqa: F401
@@ -194,6 +195,14 @@ def finish_build(rng, ids, objects, tasks, roots):
     exprs = []
     for number in range(rng.randint(1, 3)):
         exprs.append(gen_expr(rng, tasks))
+    # a connective that is an operand of several other conditions - one object inside all of them
+    nested = [sub for expr in exprs if expr['k'] in ('and', 'or') for sub in expr['a']
+              if sub['k'] in ('and', 'or')]
+    if nested and rng.random() < 0.5:
+        inner = rng.choice(nested)
+        inner['share'] = 'inner'
+        exprs.append({'k': rng.choice(['and', 'or']),
+                      'a': [gen_atom(rng, tasks), copy.deepcopy(inner)]})
     waiter_no = 0
     for number, expr in enumerate(exprs):
         for _ in range(rng.randint(1, 5)):
@@ -201,6 +210,22 @@ def finish_build(rng, ids, objects, tasks, roots):
             if rng.random() < 0.6:
                 spec['share'] = 'x%d' % number      # several waiters on the very same object
             steps = []
+            if rng.random() < 0.15:
+                # a wait for it that is abandoned in the turn in which it begins
+                if rng.random() < 0.5:
+                    steps.append({'op': 'scope', 'id': ids('ab'), 'n': {'k': 'instant'},
+                                  'catch': False, 'children': [],
+                                  'body': [{'op': 'wait', 'n': dict(spec), 'id': ids('aw')}]})
+                else:
+                    # ... by a child that is cancelled right after it subscribed (the cancel
+                    # is queued behind the wake-up that makes it subscribe)
+                    name = ids('cw')
+                    steps.append({'op': 'scope', 'id': ids('ab'), 'n': None, 'catch': False,
+                                  'children': [{'name': name, 'volatile': False, 'steps': [
+                                      {'op': 'wait', 'n': dict(spec), 'id': ids('aw')}]}],
+                                  'body': [{'op': 'wait', 'n': {'k': 'instant'}, 'id': ids('ai')},
+                                           {'op': 'cancel', 'task': name, 'yield': False,
+                                            'id': ids('ac')}]})
             arrive = rng.choice([0, 0, 0.5, 1, 1.5, 2, 3])
             if rng.scale != 1:
                 arrive = rng.choice([0, 0.7, 0.7, 0.8, 0.8, 1.2, 1.2, 2.9])
